@@ -20,11 +20,11 @@ def pick(rnd, i):
     return case, make, ""
 
 
-CHECK = ComponentCheck("C27", pick, drain=0)
+CHECK = ComponentCheck("C27", pick, drain=0, embedded=(("CircularAllocator",), ("basicfifo", "serializer", "pipeline")))
 shards, run_shard = CHECK.shards, CHECK.run_shard
-RULE = ("histories = hostile random alloc(count)/free(count)/clear sequences for entries in {1,2,3,5,6,8,16}, max_alloc/max_free 1-4; with validation "
+RULE = ("[plus a second workload: CircularAllocator instances embedded in BasicFifo (driven directly, inside Serializer and inside pipelines), watched passively (vf/passive.py) against the same reference model: readiness, results and state registers every cycle, conditions embedded:*] histories = hostile random alloc(count)/free(count)/clear sequences for entries in {1,2,3,5,6,8,16}, max_alloc/max_free 1-4; with validation "
         "counts are unconstrained (overflowing/underflowing calls must be refused), without validation the stimulus respects the documented "
         "precondition; start/end/allocated registers compared every cycle; non-trivial distinct case = (config, tags among alloc+free, pointer "
         "wrap, fills, empties, clear racing)")
 ASSUMPTIONS = ["without validation hardware the stimulus keeps counts within the documented precondition"]
-MINIMA = {"quick": {"cycles": 5000, "calls:alloc": 1000, "calls:free": 1000, "distinct": 40}, "thorough": {"cycles": 500000, "distinct": 100}}
+MINIMA = {"quick": {"embedded_CircularAllocator_cycles": 3000, "cycles": 5000, "calls:alloc": 1000, "calls:free": 1000, "distinct": 40}, "thorough": {"cycles": 500000, "distinct": 100}}
